@@ -49,6 +49,20 @@ func (g *G) Gen(t *schemas.T) *refval.V {
 		return refval.MkBool(nd.Bool(g.name("t")))
 	case "bytes":
 		return refval.MkBytes(nd.Bytes(g.name("b"), 1))
+	case "any":
+		switch nd.Choose(g.name("anykind"), 5) {
+		case 0:
+			i := nd.Int64(g.name("i"))
+			nd.Assume(i >= 0 && i < 24)
+			return refval.MkInt(i)
+		case 1:
+			return refval.MkString(nd.String(g.name("s"), 1))
+		case 2:
+			return refval.MkBool(nd.Bool(g.name("t")))
+		case 3:
+			return refval.MkList(refval.MkInt(7), refval.MkNull())
+		}
+		return refval.MkMap([]string{"k"}, []*refval.V{refval.MkString(nd.String(g.name("s"), 1))})
 	case "struct":
 		g.depth++
 		defer func() { g.depth-- }()
@@ -79,6 +93,17 @@ func (g *G) Gen(t *schemas.T) *refval.V {
 				v.L = append(v.L, &refval.V{K: refval.Absent})
 			default:
 				v.L = append(v.L, refval.MkNull())
+			}
+		}
+		if t.Repr == "tuple" {
+			// a tuple has no way to say that a field before a present one is absent:
+			// the inhabitants that have a representation are those whose absent fields are a suffix
+			for i := range v.L {
+				if v.L[i].K == refval.Absent {
+					for j := i + 1; j < len(v.L); j++ {
+						nd.Assume(v.L[j].K == refval.Absent)
+					}
+				}
 			}
 		}
 		return v
@@ -228,6 +253,8 @@ var kinds = map[string]refval.Kind{"int": refval.Int, "string": refval.String, "
 // does not conform to t.
 func FromRepr(t *schemas.T, r *refval.V) (*refval.V, bool) {
 	switch t.Kind {
+	case "any":
+		return r, true
 	case "int", "string", "bool", "bytes":
 		if r.K != kinds[t.Kind] {
 			return nil, false
@@ -407,7 +434,11 @@ func FromRepr(t *schemas.T, r *refval.V) (*refval.V, bool) {
 			for _, m := range t.Members {
 				p := m.Discr + t.Delim
 				if len(r.S) >= len(p) && r.S[:len(p)] == p {
-					return refval.MkMap([]string{m.Type}, []*refval.V{refval.MkString(r.S[len(p):])}), true
+					iv, ok := FromRepr(schemas.ByName(m.Type), refval.MkString(r.S[len(p):]))
+					if !ok {
+						return nil, false
+					}
+					return refval.MkMap([]string{m.Type}, []*refval.V{iv}), true
 				}
 			}
 			return nil, false
@@ -470,6 +501,10 @@ func (g *G) Mutate(v *refval.V) *refval.V {
 		c.L = append([]*refval.V{}, v.L...)
 		c.L[i] = g.Mutate(v.L[i])
 		return &c
+	}
+	if (v.K == refval.Map || v.K == refval.List) && nd.Choose(g.name("rekind"), 2) == 1 {
+		// another kind altogether: the empty container of the other kind, or a scalar
+		return []*refval.V{refval.MkMap(nil, nil), refval.MkList(), refval.MkNull(), refval.MkString("x")}[nd.Choose(g.name("rekindto"), 4)]
 	}
 	switch v.K {
 	case refval.Map:
